@@ -191,6 +191,14 @@ def post_init(P, R):
             pp = dfs.path_avoiding(None, lambda t: t.key == fin.key, target=last.bid, from_entry=True)
             inb = any(t.key == fin.key for t in dfs.block_sites(last.bid)[:last.idx])
             R.ob('C20.MPT.2', pp is None or inb, last, 'every walk that completes marks the module finished (also modules without a post-init)', key='finished-all-paths')
+        # ... and so does every other successful return that lies behind the dependency loop
+        behind = set(dfs.reach([t.bid for t in rec])) if rec else set()
+        for t in rets0:
+            if t is last or t.bid not in behind:
+                continue
+            pp = dfs.path_avoiding(None, lambda u: u.key == fin.key, target=t.bid, from_entry=True)
+            inb = any(u.key == fin.key for u in dfs.block_sites(t.bid)[:t.idx])
+            R.ob('C20.MPT.2', pp is None or inb, t, 'a successful return after the dependency loop leaves the module marked finished (a module reached again on the same pass would otherwise look like a loop)', key='finished-early-return')
         # the on-stack test does not match a finished module
         loops = []
         for bid in dfs.reachable_blocks():
@@ -311,6 +319,37 @@ def unload(P, R):
     R.floor('C20.GRD.3', 5)
 
 
+def reverse_list_removal(P, R, rule='C20.TAB.1'):
+    """Unloading removes the module from each dependency's reverse list with an in-place filter: the entry that is
+    tested against the name is the entry that is read and kept (same index as the source of the copy), not the slot
+    being written - otherwise entries after the first match are dropped and a dependency unloads too early."""
+    mc = P.need_fn('module_cleanup')
+    n = 0
+    for c in mc.calls():
+        if not any(on_path(a, 'rdepends') for a in c.ev['args']):
+            continue
+        for g in P.callees(c, False):
+            for s in g.stores():
+                ev = s.ev
+                lhs, rhs = ev.get('lhs') or {}, ev.get('rhs') or {}
+                if ev['k'] != 'store' or lhs.get('k') != 'idx' or rhs.get('k') != 'idx' or not same(lhs['base'], rhs['base']):
+                    continue
+                wv, rv_ = set(vars_in(lhs['index'])), set(vars_in(rhs['index']))
+                if len(wv) != 1 or len(rv_) != 1 or wv == rv_:
+                    continue
+                r = list(rv_)[0]
+                loop = {b for b in g.reach([s.bid]) if s.bid in g.reach([b])}
+                for t in g.sites():
+                    if t.bid not in loop or t.key == s.key:
+                        continue
+                    for ex in rules.event_exprs(t.ev):
+                        for x in walk(ex):
+                            if x.get('k') == 'idx' and same(x['base'], rhs['base']) and t.ev['k'] == 'call':
+                                n += 1
+                                R.ob(rule, set(vars_in(x['index'])) == {r}, t, '%s: the entry compared with the name to remove (%s) is the one being read (%s), not the write slot' % (g.name, sx(x), sx(rhs)), key='filter-index:%s' % g.name)
+    R.floor(rule, 1, 'reverse-dependency removal filter')
+
+
 def run(P, R, tier):
     ld = construct_once(P, R)
     failures(P, R, ld)
@@ -318,4 +357,5 @@ def run(P, R, tier):
     walk_starts(P, R)
     both_directions(P, R)
     unload(P, R)
+    reverse_list_removal(P, R)
     return EXPLANATION, ASSUMPTIONS
